@@ -17,7 +17,7 @@ from snaxc.ir.dart.access_pattern import Schedule, SchedulePattern, Template, Te
 from snaxc.ir.dart.affine_transform import AffineTransform
 from snaxc.ir.dart import scheduler as SCH
 
-BOUNDS_MENU = [1, 2, 3, 4, 6, 8]
+BOUNDS_MENU = [1, 2, 3, 4, 5, 6, 8]  # 5: does not divide, and >= 2x the template bounds 2 (a guard `bound < 2*template` would hide it)
 
 # ---------------------------------------------------------------------------------------------- exact helpers
 
@@ -179,7 +179,7 @@ def space(tier):
     # (a) one operand, one result row, d dims: every matrix, every bounds vector
     for tname in ("vec4", "vecN", "tile2"):
         for d in (1, 2, 3):
-            bm = BOUNDS_MENU if d <= 2 or th else [1, 2, 4, 8]
+            bm = BOUNDS_MENU if d <= 2 or th else [1, 2, 4, 5, 8]
             parts.append(Tagged("sched", Product([tname], [(1,)], [d], power(ent, d), power(bm, d), ["none"])))
     # (b) two / three operands, one row each, d <= 2
     for tname, k in (("vec4x2", 2), ("vec4x3", 3)):
@@ -189,7 +189,7 @@ def space(tier):
     if th:
         parts.append(Tagged("mm", Product(["mm222", "mm2N2"], perms(3), range(37), power(BOUNDS_MENU, 3), ["none", "pos", "pos+mem888", "mem111", "ocs"], [0, 1])))
     else:
-        parts.append(Tagged("mm", Product(["mm222", "mm2N2"], perms(3), range(37), power([1, 2, 4, 6], 3), ["none", "pos+mem888", "ocs"], [0])))
+        parts.append(Tagged("mm", Product(["mm222", "mm2N2"], perms(3), range(37), power([1, 2, 4, 5], 3), ["none", "pos+mem888", "ocs"], [0])))
         parts.append(Tagged("mm", Product(["mm222", "mm2N2"], perms(3), [0, 5, 20], power([1, 2, 4], 3), ["pos", "mem111"], [0, 1])))
     # (d) broadcast-row and rank-mismatch templates: two operands (2 rows, 1 or 2 rows), d = 2,3
     for tname, rows in (("bcast", (2, 1)), ("rankmis", (2, 2))):
